@@ -631,7 +631,10 @@ fn c18_gen(seed: u64, k: u64) -> C18Case {
             let j = rng.random_range(0..num_in);
             let (head, out) = spec.circ.insts[j].split_once('>').unwrap();
             let party = head[1..].split('.').next().unwrap().to_string();
-            spec.circ.insts[j] = format!("i{}.{}>{}", party, 40 + rng.random_range(0..100), out);
+            // far beyond every count, or just beyond the owner's own count (still below the total)
+            let own: usize = party.parse::<usize>().ok().and_then(|q| spec.circ.inputs.get(q).copied()).unwrap_or(0);
+            let idx = if rng.random_bool(0.5) { 40 + rng.random_range(0..100) } else { own + rng.random_range(0..2) };
+            spec.circ.insts[j] = format!("i{}.{}>{}", party, idx, out);
             ("counter-mismatch: Input.input out of range".into(), vec![], "no-panic")
         }
     };
